@@ -98,6 +98,7 @@ var verifC18Queries = []string{
 	"select a, b into @x, @y from t where exists (select 1 from u where u.a = t.a order by b desc nulls first)",
 	"select median(distinct a), listagg(a, %s) within group (order by b desc nulls last), userfn(a, %s) from t as t1, u as u1 where t1.a = u1.a",
 	"select %s from stdin",
+	"select - -1, - - -a, -(-2), ! !true, +a, - +1 from t",
 }
 
 // The canonical printed form of each query above, written by hand from the source: the same tokens
@@ -123,6 +124,7 @@ var verifC18Canon = []string{
 	"SELECT a, b INTO @x, @y FROM t WHERE EXISTS (SELECT 1 FROM u WHERE u.a = t.a ORDER BY b DESC NULLS FIRST)",
 	"SELECT MEDIAN(DISTINCT a), LISTAGG(a, %s) WITHIN GROUP (ORDER BY b DESC NULLS LAST), USERFN(a, %s) FROM t AS t1, u AS u1 WHERE t1.a = u1.a",
 	"SELECT %s FROM STDIN",
+	"SELECT - -1, - - -a, -(-2), ! !TRUE, +a, - +1 FROM t",
 }
 
 func verifFmt1(q, lit string) string {
